@@ -8,9 +8,13 @@ theorem daysBeforeYear_succ (y : Int) : daysBeforeYear (y + 1) = daysBeforeYear 
   by_cases h4 : y % 4 = 0 <;> by_cases h100 : y % 100 = 0 <;> by_cases h400 : y % 400 = 0 <;>
     simp [h4, h100, h400] <;> omega
 
-/-- year containing day number n (days since 1970-01-01) -/
+/-- 400·dby(y) stays within a fixed band around 146097·(y-1970) -/
+theorem dby_band (y : Int) :
+    146097 * (y - 1970) - 600 ≤ 400 * daysBeforeYear y ∧ 400 * daysBeforeYear y ≤ 146097 * (y - 1970) + 600 := by
+  unfold daysBeforeYear; omega
+
 def yearOfDay (n : Int) : Int :=
-  let y0 := 1970 + (n * 400) / 146097   -- estimate (may be off by one)
+  let y0 := 1970 + (n * 400) / 146097
   if n < daysBeforeYear y0 then y0 - 1
   else if n ≥ daysBeforeYear (y0 + 1) then y0 + 1
   else y0
@@ -19,14 +23,22 @@ theorem yearOfDay_spec (n : Int) :
     daysBeforeYear (yearOfDay n) ≤ n ∧ n < daysBeforeYear (yearOfDay n + 1) := by
   unfold yearOfDay
   simp only
+  generalize hy : 1970 + n * 400 / 146097 = y0
+  have hb0 := dby_band y0
+  have hbm := dby_band (y0 - 1)
+  have hbp := dby_band (y0 + 1)
+  have hbpp := dby_band (y0 + 1 + 1)
+  have s0 := daysBeforeYear_succ y0
+  have sm := daysBeforeYear_succ (y0 - 1)
+  have sp := daysBeforeYear_succ (y0 + 1)
+  have l0 : 365 ≤ yearLen y0 ∧ yearLen y0 ≤ 366 := by unfold yearLen; split <;> omega
+  have lm : 365 ≤ yearLen (y0 - 1) ∧ yearLen (y0 - 1) ≤ 366 := by unfold yearLen; split <;> omega
+  have lp : 365 ≤ yearLen (y0 + 1) ∧ yearLen (y0 + 1) ≤ 366 := by unfold yearLen; split <;> omega
+  have e1 : y0 - 1 + 1 = y0 := by omega
+  rw [e1] at sm
   split
-  · unfold daysBeforeYear at *; omega
+  · rw [e1]; constructor <;> omega
   · split
-    · unfold daysBeforeYear at *; omega
-    · unfold daysBeforeYear at *; omega
-
-#eval daysBeforeYear 1970
-#eval daysBeforeYear 2000
-#eval yearOfDay 10957
-#eval yearOfDay 10956
+    · constructor <;> omega
+    · constructor <;> omega
 #print axioms yearOfDay_spec
